@@ -259,6 +259,10 @@ def _bulk_insert(ex, st, post, result):
     ok = len(em) == 1 and len(em[0].args) == 2 and em[0].args[1] is st.env.get('records')
     g = z3.BoolVal(bool(ok))
     cols = _sql_columns(em[0].args[0]) if ok else None
+    if ok and cols is None and 'MBTiles' in str(getattr(st.fn, 'key', '')):
+        # the MBTiles statements are literals: one that is not recognisably "INSERT OR REPLACE INTO tiles (<columns>)" - the form
+        # that replaces the WHOLE row of an address, time stamp included - is not accepted
+        g = z3.BoolVal(False)
     if cols is not None:
         g = z3.And(g, z3.BoolVal(cols[:4] == ['zoom_level', 'tile_column', 'tile_row', 'tile_data']))
         h = st.heap[post.env['self'].ref]
@@ -324,7 +328,7 @@ def _single_lookup(kind):
 
 
 for _k, _c in (('mapproxy.cache.mbtiles:', 'MBTilesCache'), ('mapproxy.cache.geopackage:', 'GeopackageCache')):
-    contract(_k + _c + '._store_bulk', props=['C05'],
+    contract(_k + _c + '._store_bulk', props=['C05', 'C13'],
              types=dict(tiles='list[opaque]'), returns='bool', default_callee='opaque',
              # (only tiles with an address are ever stored: the callers filter / create them from grid coordinates)
              requires=['forall(lambda j: implies(0 <= j < len(tiles), tiles[j].coord is not None))'],
